@@ -41,6 +41,9 @@ type Scenario struct {
 	// StaleCanaryService pre-creates "<svc>-canary" selecting some long-gone revision (a leftover of an earlier,
 	// interrupted rollout): legal input the controllers must re-point before routing to it.
 	StaleCanaryService bool
+	// ColdStart: the workload has just been created - spec.replicas > 0, but no pod exists yet and the status
+	// still says replicas 0 when the user changes the template (CloneSet)
+	ColdStart bool
 	// Recreate: the user's Deployment uses strategy Recreate
 	Recreate bool
 	// RollbackInBatch sets the rollouts.kruise.io/rollback-in-batch annotation on the Rollout
@@ -111,6 +114,7 @@ func (sc *Scenario) Build(w *World) error {
 	ctx := context.TODO()
 	ns := sc.ns()
 	w.Store.Actor = "init"
+	w.ColdStart = sc.ColdStart
 	defer func() { w.Store.Actor = "" }()
 	cfg, err := LoadWebhookConfiguration()
 	if err != nil {
@@ -136,7 +140,7 @@ func (sc *Scenario) Build(w *World) error {
 			return err
 		}
 		rev := RevisionOf(cs.Name, &cs.Spec.Template)
-		for i := 0; i < int(sc.Replicas); i++ {
+		for i := 0; i < int(sc.Replicas) && !sc.ColdStart; i++ {
 			p := NewPod(ns, fmt.Sprintf("%s-%d", cs.Name, i), cs.Spec.Template.Labels, rev, ownerRef(cs, "CloneSet", kruiseappsv1alpha1.SchemeGroupVersion.String()), true)
 			if err := w.Raw.Create(ctx, p); err != nil {
 				return err
